@@ -179,6 +179,23 @@ def deref_local(fn, n):
             n = skip_copies(fn.nodes[n["inl_value"]])
             seen += 1
             continue
+        if n.get("k") == "member" and n.get("dk") == "field" and isinstance(n.get("base"), dict) and skip_copies(n["base"]).get("k") == "ref" and skip_copies(n["base"]).get("dk") == "local":
+            # `parts.suffix` where `parts` is a local aggregate initialised once from `{a, b}` (possibly the value of a spliced helper)
+            agg = deref_local(fn, n["base"])
+            if isinstance(agg, dict) and agg.get("k") == "construct" and len(agg.get("args", [])) == 1 and skip_copies(agg["args"][0]).get("k") == "initlist":
+                agg = skip_copies(agg["args"][0])
+            if isinstance(agg, dict) and agg.get("k") == "initlist":
+                from .facts import RECORD_FIELDS
+                rec = (n.get("name") or "").rsplit("::", 1)[0]
+                order = RECORD_FIELDS.get(rec) or []
+                fname = (n.get("name") or "").rsplit("::", 1)[-1]
+                els = agg.get("els", [])
+                names = [x.rsplit("::", 1)[-1] for x in order]
+                if fname in names and names.index(fname) < len(els) and len(els) == len(names):
+                    n = skip_copies(els[names.index(fname)])
+                    seen += 1
+                    continue
+            break
         if not (n.get("k") == "ref" and n.get("dk") == "local"):
             break
         dn, var = local_var(fn, n["decl"])
